@@ -691,6 +691,10 @@ def pubsub_history(ctx, srv, g, n, label='pubsub'):
                     continue
                 s.poll(cmap[v])
                 s.cmd(cmap[c], [b'CLIENT', b'KILL', b'ID', str(sids[v]).encode()])
+                # the victim is marked for closing and cleaned up at the end of that event-loop pass (as in Redis, where it is freed
+                # before the next iteration): a request another client gets executed in the SAME pass may still see its
+                # subscriptions.  The next request is sent after full passes have run, so that "ended at once" is what is observed.
+                s.wait_loop(3)
                 # the victim notices at its next request (answered by a close); until then nothing may reach it
                 continue
             c, a = st
